@@ -104,8 +104,8 @@ class ART2A(BaseART):
 
         """
         if not hasattr(self, "dim_"):
+            assert self.params["alpha"] <= 1 / np.sqrt(X.shape[1])
             self.dim_ = X.shape[1]
-            assert self.params["alpha"] <= 1 / np.sqrt(self.dim_)
         else:
             assert X.shape[1] == self.dim_
 
